@@ -11,6 +11,7 @@ import (
 
 	ipfslog "berty.tech/go-ipfs-log"
 	"berty.tech/go-orbit-db/iface"
+	"berty.tech/go-orbit-db/stores/basestore"
 	cid "github.com/ipfs/go-cid"
 
 	"verifharness/fw"
@@ -28,8 +29,8 @@ type ScenCfg struct {
 	Wild    bool // wildcard write list instead of explicit ids
 
 	// weights of step kinds
-	WWrite, WDeliver, WDeliverAll, WDrop, WDup, WCut, WHeal, WRestart, WSync, WConc, WBurst, WFaultyDeliver, WHoleHeal int
-	CheckEvery                                                                                                         int
+	WWrite, WDeliver, WDeliverAll, WDrop, WDup, WCut, WHeal, WRestart, WSync, WConc, WBurst, WFaultyDeliver, WHoleHeal, WSnapshot int
+	CheckEvery                                                                                                                    int
 }
 
 type Step struct {
@@ -51,6 +52,8 @@ func (s Step) String() string {
 		return fmt.Sprintf("%s(%d,%d)", s.K, s.A, s.B)
 	case "restart":
 		return fmt.Sprintf("restart(%d)", s.A)
+	case "snap":
+		return fmt.Sprintf("snap(%d)", s.A)
 	case "burst":
 		return fmt.Sprintf("burst(%d)", s.N)
 	default:
@@ -87,6 +90,8 @@ type Runner struct {
 	ConcSteps     int
 	FaultyFetches int
 	HoleHeals     int
+	SnapLoads     int
+	snapSaved     map[int]bool
 	Checkpoints   int
 	Compared      int
 	failed        *Violation
@@ -185,7 +190,7 @@ func (r *Runner) GenSteps(rng *rand.Rand) []Step {
 		k string
 		w int
 	}
-	ws := []wk{{"w", c.WWrite}, {"d", c.WDeliver}, {"da", c.WDeliverAll}, {"drop", c.WDrop}, {"dup", c.WDup}, {"cut", c.WCut}, {"heal", c.WHeal}, {"restart", c.WRestart}, {"sync", c.WSync}, {"conc", c.WConc}, {"burst", c.WBurst}, {"fd", c.WFaultyDeliver}, {"hh", c.WHoleHeal}}
+	ws := []wk{{"w", c.WWrite}, {"d", c.WDeliver}, {"da", c.WDeliverAll}, {"drop", c.WDrop}, {"dup", c.WDup}, {"cut", c.WCut}, {"heal", c.WHeal}, {"restart", c.WRestart}, {"sync", c.WSync}, {"conc", c.WConc}, {"burst", c.WBurst}, {"fd", c.WFaultyDeliver}, {"hh", c.WHoleHeal}, {"snap", c.WSnapshot}}
 	tot := 0
 	for _, x := range ws {
 		tot += x.w
@@ -221,7 +226,7 @@ func (r *Runner) GenSteps(rng *rand.Rand) []Step {
 			if st.B >= st.A {
 				st.B++
 			}
-		case "restart":
+		case "restart", "snap":
 			st.A = rng.Intn(c.NPeers)
 		case "burst":
 			st.N = 2 + rng.Intn(3)
@@ -483,6 +488,28 @@ func (r *Runner) Exec(steps []Step) {
 			r.settle()
 			r.HoleHeals++
 			r.logf("hole-heal %d->%d (%d writes)", st.A, st.B, st.N)
+		case "snap":
+			// save a snapshot, or load the one saved earlier into the LIVE store (which may have grown since)
+			if s := r.store(st.A); s != nil && r.Peers[st.A].Running() {
+				if r.snapSaved == nil {
+					r.snapSaved = map[int]bool{}
+				}
+				if !r.snapSaved[st.A] || st.R < 0.4 {
+					sctx, scancel := context.WithTimeout(bg, 30*time.Second)
+					if _, err := basestore.SaveSnapshot(sctx, s); err == nil {
+						r.snapSaved[st.A] = true
+						r.logf("snapshot saved on p%d (%d entries)", st.A, s.OpLog().Len())
+					}
+					scancel()
+				} else {
+					lctx, lcancel := context.WithTimeout(bg, 30*time.Second)
+					err := s.LoadFromSnapshot(lctx)
+					lcancel()
+					r.SnapLoads++
+					r.logf("snapshot loaded into the live store of p%d: %v", st.A, err)
+				}
+				r.settle()
+			}
 		case "fd":
 			// a delivery during which one remote block fetch of the receiver fails (the message stays in the
 			// pool and is delivered again later, so that the abandoned entries are asked for again)
